@@ -30,7 +30,7 @@ PROPS = {
  "C06": {
   "tests": ["TestC06", "TestC06Concurrent"],
   "rule": "reachable states by random prefixes (as C04), every drop sample checked for non-increase and AIMD's exact rule, then a sustained run of "
-          "drops at the current baseline RTT until the floor; non-trivial = a drop sample / a completed floor run; distinct by (algorithm, estimate, inputs)",
+          "drops at the current baseline RTT until the floor; concurrent drop samples from several goroutines (never a rise between ordered reads, result = sequential twin); non-trivial = a drop sample / a completed floor run; distinct by (algorithm, estimate, inputs)",
   "level_text": "C06_aimd_exact (the decrease rule with the binary64 product) and C06_aimd_nonincrease proved for all limits < 2^52 and ratios in [0,1]; "
                 "C06_gradient_nonincrease / C06_gradient_after_any_history: after any sample history from a state with estimate >= 4 and smoothing in [2^-50,1] a drop never raises Gradient's estimate "
                 "(halving, binary64 smoothing, clamps; the side conditions are proved step-invariant); C06_vegas_nonincrease / C06_vegas_after_any_history / C06_vegas_drop_run_monotone: "
@@ -42,9 +42,12 @@ PROPS = {
  "C07": {
   "tests": ["TestC07", "TestC07Concurrent"],
   "rule": "random prefixes, every non-drop sample with in-flight below half the estimate (below the estimate for AIMD) checked for no raise; then a healthy saturated "
-          "run at the baseline RTT until within one of the ceiling; non-trivial = an app-limited sample / a completed recovery run",
+          "run at the baseline RTT until within one of the ceiling; k identical saturated samples delivered from several goroutines must equal k sequential ones on a twin; "
+          "non-trivial = an app-limited sample / a completed recovery run",
   "level_text": "C07_app_limited_{aimd,vegas,gradient,gradient2} proved for all states and samples (stored estimate untouched, nobody notified); C07_aimd_recovers proved; "
-                "recovery of Vegas/Gradient/Gradient2 is decided by replay + bounded-run oracle (theorems in progress).",
+                "C07_gradient_recovers / C07_gradient_recovery_run (every healthy saturated non-probe sample adds at least 4 up to the ceiling: min(max, est + 4n) after n) and "
+                "C07_vegas_recovers / C07_vegas_recovery_run (smoothing 1.0: min(max, est + 6n)) proved from every state in the safety invariant; "
+                "Vegas with smoothing < 1, Gradient2 and probe-interleaved runs are decided by replay + bounded-run oracle.",
   "level_note": "Trusted as C04. The app-limited theorems use the implementation's own float comparison as hypothesis (exact for in-flight < 2^31).",
   "technique": "Coq case-analysis theorems + differential replay and recovery-run oracle",
  },
@@ -90,7 +93,8 @@ PROPS = {
  "C02": {
   "tests": ["TestC02", "TestC02Races"],
   "rule": "random histories of acquires, completions with the three outcomes, scripted estimate changes, partition adds/removes and virtual-time steps through the default limiter over "
-          "all four strategy kinds, ending with a full drain and re-acquisition of the full limit; after every op gauge = busy = outstanding listeners; non-trivial = a completed drain",
+          "all four strategy kinds, ending with a full drain and re-acquisition of the full limit; after every op gauge = busy = outstanding listeners; race-window replays (hand-off to a departed waiter, "
+          "cancellation during the grant of the blocking limiter); non-trivial = a completed drain",
   "level_text": "C02_init/_acquire/_complete: LInv (gauge = strategy busy = outstanding listeners) is an invariant of the default limiter over any strategy, any outcome, any window "
                 "closing; refusals change nothing. C02_partition_bins: bins exact in every reachable state. Blocking/queue wrappers: see C10/C12 (transition systems).",
   "level_note": "Trusted as C01; sequential model of limiter/default.go (time.Now as explicit argument, synctest virtual clock in the harness).",
@@ -108,7 +112,7 @@ PROPS = {
  "C05": {
   "tests": ["TestC05", "TestC05Races"],
   "rule": "default limiter over all four strategy kinds with a scripted limit double (estimates 0, negative, repeated, large), random histories plus closing bursts that fill and close windows "
-          "at instants around the period end; after every forwarded window the strategy limit and every share are checked; non-trivial = a distinct closed window",
+          "at instants around the period end; after every forwarded window the strategy limit and every share are checked; a real-time replay of two overlapping window updates with a slow strategy; non-trivial = a distinct closed window",
   "level_text": "C05_sync_init, C05_sync_update (same step as the forwarded sample), C05_shares_follow (SetLimit keeps the invariant 'every live bin has the share of the current total').",
   "level_note": "Trusted as C02. Limits changed from outside (SettableLimit.SetLimit) are outside the statement and the model.",
   "technique": "Coq theorems over limiter + strategy models + differential replay",
